@@ -1,8 +1,8 @@
-"""Kernel K5R (property C10): the walk of the handler registry.
+"""Kernel K110a (property C10): the walk of the handler registry.
 
 `Registry.get` (common.py) asks the registered handlers in registration order and takes the first answer that is not
 None.  K5 / K5P translate the first handler (the overridden (de)serialization method), K5D the if/elif chains of the
-special-typing and the collection handler.  K5R translates THE ORDER (the `@register` decorators of pack.py /
+special-typing and the collection handler.  K110a translates THE ORDER (the `@register` decorators of pack.py /
 unpack.py, top to bottom) and the guard of EVERY other handler, so that "the dataclass handler answers before the
 chains" and "the handlers between the two chains decline" are no longer hand-written in the model:
 
@@ -28,10 +28,10 @@ import os
 
 from py2gallina import HEADER, Unsupported, coq_string
 
-NAME = "K5R"
+NAME = "K110a"
 REPO = os.environ.get("VERIF_REPO", "/repo")
 
-_sp = importlib.util.spec_from_file_location("vk_k5d_for_k5r", os.path.join(os.path.dirname(os.path.abspath(__file__)), "k5d_dispatch.py"))
+_sp = importlib.util.spec_from_file_location("vk_k5d_for_k110a", os.path.join(os.path.dirname(os.path.abspath(__file__)), "k5d_dispatch.py"))
 k5d = importlib.util.module_from_spec(_sp)
 _sp.loader.exec_module(k5d)
 
